@@ -12,8 +12,10 @@ from wv.oracle import vcfdiff, vcftext
 ID = "C20"
 LEVEL = "exploration"
 RULE = (
-    "G-genome data with 2-3 chromosomes x (two trios | trio + unrelated samples | singles), planted recombination in the simulated "
-    "inheritance, reads with 0-3% errors and PL values so that --distrust-genotypes changes genotypes; every subset of "
+    "G-genome data with 2-4 chromosomes x (two trios | trio + unrelated samples | singles), planted recombination in the simulated "
+    "inheritance, reads with 0-5% errors, noisy VCF genotypes and PL values so that --distrust-genotypes changes genotypes, 'quiet' "
+    "chromosomes without errors/noise between noisy ones, single and paired reads (with --no-genetic-haplotyping: interleaved "
+    "read-connected phase sets inside a family); every subset of "
     "{--output-read-list, --changed-genotype-list, --recombination-list}, with/without --distrust-genotypes, --ped, --chromosome "
     "subsets, both tags, --include-homozygous. Monitors (interposed trace of every solver instance and of the three writer calls vs. "
     "the files found after the run): conservation — number of recombination lines == sum of the counts returned by every "
@@ -45,17 +47,24 @@ def gen_params(rng):
         samples, ped = ["dad", "mom", "kid"], [("dad", "mom", "kid")]
     else:
         samples, ped = ["s1", "s2"], []
+    n_chrom = rng.choice([2, 2, 3, 4])
+    chroms = ["chr%d" % (i + 1) for i in range(n_chrom)]
+    paired = rng.choice([0.0, 0.0, 0.8])
     p = {
-        "n_chrom": rng.choice([2, 2, 3]),
+        "n_chrom": n_chrom,
+        # chromosomes on which the reads carry no errors and the genotypes no noise: nothing to report there
+        "quiet_chroms": sorted(c for c in chroms if rng.random() < 0.35) if rng.random() < 0.5 else [],
+        "gt_noise": (rng.choice([0.0, 0.1, 0.2]), 0.0),
         "chrom_len": 2500,
-        "n_var": rng.randint(8, 20),
+        "n_var": rng.randint(8, 20) if not paired else rng.randint(14, 30),
         "kinds": ["snv"],
         "samples": samples,
         "pedigree": ped,
         "recomb_prob": rng.choice([0.0, 0.1, 0.2]),
         "depth": rng.choice([3, 6, 12]),
-        "read_len": (200, 900),
-        "paired": 0.0,
+        "read_len": (200, 900) if not paired else (500, 1400),
+        "paired": paired,
+        "mate_len": (60, 200),
         "end_policy": "clean",
         "error_rate": rng.choice([0.0, 0.02, 0.05]),
         "het_prob": 0.75,
@@ -72,6 +81,8 @@ def gen_params(rng):
         opts["include_homozygous"] = True
     if rng.random() < 0.25:
         opts["chromosomes"] = rng.sample(["chr%d" % (i + 1) for i in range(p["n_chrom"])], p["n_chrom"] - 1)
+    if ped and rng.random() < (0.6 if paired else 0.2):
+        opts["genetic_haplotyping"] = False  # read-connected sets only: with paired reads they interleave
     if ped and rng.random() < 0.2:
         opts["recombrate"] = rng.choice([0.01, 1.26, 50.0])
     return p, opts
@@ -238,6 +249,11 @@ def run_one(rng, counters):
                 entries_instances = max(entries_instances, 2)
             counters["recomb_files_checked"] = counters.get("recomb_files_checked", 0) + 1
             counters["recomb_events_reported"] = counters.get("recomb_events_reported", 0) + total
+        for i in insts:
+            order = [i["components"].get(q) for q in i["positions"]]
+            runs = sum(1 for k, x in enumerate(order) if k == 0 or x != order[k - 1])
+            if runs > len(set(order)):
+                counters["instances_with_interleaved_sets"] = counters.get("instances_with_interleaved_sets", 0) + 1
         nt = len(insts) >= 2 and entries_instances >= 2
         if nt:
             counters["runs_with_multi_instance_entries"] = counters.get("runs_with_multi_instance_entries", 0) + 1
